@@ -23,6 +23,8 @@ CONSTANTS MaxOps,        \* length of a behaviour
           InitTreesC,    \* initial trees
           Universe,      \* the paths behaviours may touch (a subset of Paths)
           AllowExternal, \* BOOLEAN
+          Exclusive,     \* set of pairs <<p, q>> that are never present together (a.py and a/__init__.py
+                         \* spell the same module name; such a tree is not a sensible project)
           ForgetOnStructure  \* BOOLEAN: concluded data is forgotten whenever a resource is created,
                              \* moved or removed and on validate (rope since 31fdd1f); FALSE = pinned rope
 
@@ -116,8 +118,11 @@ TreePairs(t) == { <<p, t[p]>> : p \in {q \in Paths : t[q] # Absent} }
 (***************************************************************************)
 (* changes through rope                                                    *)
 (***************************************************************************)
+ExclusiveOK(t) == \A pq \in Exclusive : ~(Present(t, pq[1]) /\ Present(t, pq[2]))
+
 RopeMutate(l) ==
   /\ Len(trail) < MaxOps
+  /\ ExclusiveOK(LeafApply(tree, l))
   /\ ext = {}   \* LegalHistory: rope is not asked to change files it has a stale view of
   /\ LeafEnabled(tree, l) /\ LeafLegal(tree, l)
   /\ LET t2 == LeafApply(tree, l) IN
@@ -151,6 +156,7 @@ ExtMutate(l) ==
   /\ Len(trail) < MaxOps
   /\ LeafEnabled(tree, l) /\ LeafLegal(tree, l)
   /\ l.k # "MV"
+  /\ ExclusiveOK(LeafApply(tree, l))
   /\ tree' = LeafApply(tree, l)
   /\ ext' = ext \cup Touched(l)
   /\ trail' = Append(trail, Act("ext", l))
